@@ -98,7 +98,8 @@ Fixpoint replay (s : mux_st) (evs : list (event * obs)) : bool * mux_st :=
   end.
 
 (* one end: queue length, opened ids, the events in script order with what was observed *)
-Record side_case := { sd_qlen : N; sd_opened : list N; sd_events : list (event * obs) }.
+(* sd_raw: this end is a bare transport end driven by the harness (malformed stream), not a Mux *)
+Record side_case := { sd_raw : bool; sd_qlen : N; sd_opened : list N; sd_events : list (event * obs) }.
 
 Record script_case := {
   sc_a : side_case; sc_b : side_case;
@@ -112,6 +113,7 @@ Record script_case := {
   sc_orderly : bool }.                         (* the only fault is an orderly Close *)
 
 Definition corr_side (sd : side_case) (rx tx : string) : bool :=
+  if sd_raw sd then true else
   let (ok, s) := replay (init_mux (unhex rx) (sd_qlen sd) (sd_opened sd)) (sd_events sd) in
   ok && bytes_eqb (m_tx s) (unhex tx).
 
